@@ -55,6 +55,14 @@ func (c *Clock) Advance(d time.Duration) {
 	c.ns.Add(int64(d))
 }
 
+// StepBack moves the clock backwards (fault kind clock.step_back: an NTP
+// correction of the wall clock the stores read).
+func (c *Clock) StepBack(d time.Duration) {
+	if d > 0 {
+		c.ns.Add(-int64(d))
+	}
+}
+
 func (c *Clock) SetTickOnRead(every int64, by time.Duration) {
 	c.tickBy.Store(int64(by))
 	c.tickEvery.Store(every)
